@@ -19,6 +19,20 @@ structure XWF (d : ClassDiagram) : Prop where
   tree : TreeOk d.containers
   /-- acyclic user-type chains: the fuel of the `while S_UDT` loop is never exhausted -/
   chain : DtChainOk d.dts
+  /-- every attribute is on the R103 chain of its class (the edit theorems address attributes through the class) -/
+  noLoose : d.loose = []
+
+theorem xclassAll_chained {d : ClassDiagram} (h : d.loose = []) (c : Class) : xclassAll d c = xclassOf d c := by
+  unfold xclassAll looseOf
+  rw [h]
+  rfl
+
+theorem xsdSpec_chained {d : ClassDiagram} (h : d.loose = []) (comp : Nat) : xsdSpec d comp = xsdSpecChained d comp := by
+  unfold xsdSpec xsdSpecChained
+  rw [funext (xclassAll_chained h)]
+
+theorem applyXEdit_loose (e : XEdit) (d : ClassDiagram) : (applyXEdit e d).loose = d.loose := by
+  cases e <;> rfl
 
 theorem xattr_name {d : ClassDiagram} {x : Attr} {s : XAttr} (h : xattr d x = some s) : s.name = x.name := by
   unfold xattr at h
@@ -101,8 +115,8 @@ theorem rn_xclassOf {k : Class} (hk : k ∈ d.classes) :
 
 include wf in
 theorem xrename_commutes (c a : Nat) (new : String) (comp : Nat) :
-    xsdSpec (applyXEdit (.renameAttr c a new) d) comp =
-      specEdit (xresolve d comp (.renameAttr c a new)) (xsdSpec d comp) := by
+    xsdSpecChained (applyXEdit (.renameAttr c a new) d) comp =
+      specEdit (xresolve d comp (.renameAttr c a new)) (xsdSpecChained d comp) := by
   simp only [xresolve]
   cases hc : findClass d c with
   | none =>
@@ -160,8 +174,8 @@ theorem mv_xclassOf {d : ClassDiagram} {c : Nat} {p : Parent} (k : Class) :
   exact xattr_same (by rw [mv_attrDt])
 
 theorem xmoveClass_commutes {d : ClassDiagram} (wf : WF d) (c : Nat) (p : Parent) (comp : Nat) :
-    xsdSpec (applyXEdit (.moveClass c p) d) comp =
-      specEdit (xresolve d comp (.moveClass c p)) (xsdSpec d comp) := by
+    xsdSpecChained (applyXEdit (.moveClass c p) d) comp =
+      specEdit (xresolve d comp (.moveClass c p)) (xsdSpecChained d comp) := by
   simp only [xresolve]
   cases hc : findClass d c with
   | none =>
@@ -174,7 +188,7 @@ theorem xmoveClass_commutes {d : ClassDiagram} (wf : WF d) (c : Nat) (p : Parent
     have happ : applyXEdit (.moveClass c p) d = { d with classes := d.classes.map (mvG c p) } := rfl
     rw [happ]
     obtain ⟨l1, l2, hl, hkc, h1, h2⟩ := split_at_key (fun (k : Class) => k.id) wf.clsIds hc
-    have hclasses : (xsdSpec { d with classes := d.classes.map (mvG c p) } comp).classes =
+    have hclasses : (xsdSpecChained { d with classes := d.classes.map (mvG c p) } comp).classes =
         ((l1.filter (fun k => containedIn d.containers comp k.parent)).map (xclassOf d)) ++
         (if containedIn d.containers comp p then [xclassOf d kc] else []) ++
         ((l2.filter (fun k => containedIn d.containers comp k.parent)).map (xclassOf d)) := by
@@ -202,7 +216,7 @@ theorem xmoveClass_commutes {d : ClassDiagram} (wf : WF d) (c : Nat) (p : Parent
         simp [mvG, hkc]
       rw [e1, e2, e3]
       split <;> simp
-    have hold : (xsdSpec d comp).classes =
+    have hold : (xsdSpecChained d comp).classes =
         ((l1.filter (fun k => containedIn d.containers comp k.parent)).map (xclassOf d)) ++
         (if containedIn d.containers comp kc.parent then [xclassOf d kc] else []) ++
         ((l2.filter (fun k => containedIn d.containers comp k.parent)).map (xclassOf d)) := by
@@ -224,14 +238,14 @@ theorem xmoveClass_commutes {d : ClassDiagram} (wf : WF d) (c : Nat) (p : Parent
       · rfl
       · rfl
       rw [hclasses, hout]
-      show _ = (xsdSpec d comp).classes
+      show _ = (xsdSpecChained d comp).classes
       rw [hold, hin]
     · dsimp only
       apply xspec_ext
       · rfl
       · rfl
       rw [hclasses, hout]
-      show _ = insertAt _ (xclassOf d kc) (xsdSpec d comp).classes
+      show _ = insertAt _ (xclassOf d kc) (xsdSpecChained d comp).classes
       rw [hold, hin]
       have htw : d.classes.takeWhile (fun x => x.id != c) = l1 := by
         rw [hl]; exact takeWhile_split (fun (k : Class) => k.id) c l1 l2 kc h1 hkc
@@ -247,7 +261,7 @@ theorem xmoveClass_commutes {d : ClassDiagram} (wf : WF d) (c : Nat) (p : Parent
       · rfl
       · rfl
       rw [hclasses, hout]
-      show _ = (xsdSpec d comp).classes.filter (fun c => c.kl != kc.kl)
+      show _ = (xsdSpecChained d comp).classes.filter (fun c => c.kl != kc.kl)
       rw [hold, hin]
       simp only [if_true, Bool.false_eq_true, if_false, List.append_nil, List.filter_append, List.filter_cons,
         List.append_assoc, List.singleton_append]
@@ -272,7 +286,7 @@ theorem xmoveClass_commutes {d : ClassDiagram} (wf : WF d) (c : Nat) (p : Parent
       · rfl
       · rfl
       rw [hclasses, hout]
-      show _ = (xsdSpec d comp).classes
+      show _ = (xsdSpecChained d comp).classes
       rw [hold, hin]
 
 end Pyx.Extract
